@@ -84,6 +84,49 @@ def reconstruct(r, scheme, server, host, root, path, query):
         r.violation("reconstruct:wsgi-asgi-differ", w, f"WSGI {str(urls['wsgi'])!r} vs ASGI {str(urls['asgi'])!r}")
 
 
+def reconstruct_noserver(r):
+    """ASGI scopes that carry no usable server address (key absent, None, or a unix-socket style (name, None) pair): the Host
+    header decides when there is one; with neither, only path and query are known."""
+    from baize.datastructures import URL
+    for scheme, host, root, path, query, shape in itertools.product(SCHEMES, HOSTS, ROOTS, PATHS[:4], QUERIES, ("absent", "none", "unix", "name-none-port")):
+        req = SV.AReq(path=path, root=root, query=query, headers=[("Host", host)] if host is not None else [], scheme=scheme)
+        sc = SV.to_scope(req)
+        if scheme in ("ws", "wss"):
+            sc["type"] = "websocket"
+        if shape == "absent":
+            del sc["server"]
+        elif shape == "none":
+            sc["server"] = None
+        elif shape == "unix":
+            sc["server"] = ("/run/app.sock", None)
+        else:
+            sc["server"] = ("srv.example", None)
+        w = {"kind": "noserver", "scheme": scheme, "host": host, "root": root, "path": path, "query": query, "server_shape": shape}
+        r.count("evaluations")
+        r.count("distinct_nontrivial")
+        try:
+            u = URL(scope=sc)
+            got = {"scheme": u.scheme, "hostname": u.hostname, "port": u.port, "path": u.path, "query": u.query}
+        except Exception as e:  # noqa
+            r.violation(f"reconstruct:noserver:exception:{type(e).__name__}", w, f"URL(scope) with server {shape} raised {e!r:.100}")
+            continue
+        if "?" in root + path or "#" in root + path:
+            continue
+        if host is not None:
+            hn, hp = split_host(host)
+            want = {"scheme": scheme, "hostname": hn.lower(), "port": hp, "path": root + path, "query": query.decode()}
+        elif shape in ("absent", "none"):
+            want = {"scheme": "", "hostname": None, "port": None, "path": root + path, "query": query.decode()}
+        elif shape == "name-none-port":
+            want = {"scheme": scheme, "hostname": "srv.example", "port": None, "path": root + path, "query": query.decode()}
+        else:
+            continue  # a socket path is no host name: whatever the URL shows for it is outside the property
+        if got != want:
+            diff = sorted(k for k in want if got[k] != want[k])
+            r.violation("reconstruct:noserver:" + ",".join(diff), w, f"ASGI URL {str(u)!r} from scheme={scheme} server {shape} Host={host!r} root={root!r} path={path!r}: {({k: got[k] for k in diff})} expected {({k: want[k] for k in diff})}")
+    r.sample({"kind": "noserver", "server": None, "host": "example.com:8080"})
+
+
 BASES = []
 for hostpart, hn in (("h.org", "h.org"), ("10.0.0.1", "10.0.0.1"), ("[::1]", "::1")):
     for user, pw in ((None, None), ("al", None), ("al", "s3c")):
@@ -91,6 +134,7 @@ for hostpart, hn in (("h.org", "h.org"), ("10.0.0.1", "10.0.0.1"), ("[::1]", "::
             if user is None and port == 8000 and hostpart != "h.org":
                 continue
             BASES.append({"hostpart": hostpart, "hostname": hn, "username": user, "password": pw, "port": port})
+BASES.append({"hostpart": "h.org", "hostname": "h.org", "username": "al", "password": None, "port": 0})  # port 0 is a number, not "no port"
 
 NEW = {
     "scheme": ["https"],
@@ -100,13 +144,13 @@ NEW = {
     "username": ["bob", None],
     "password": ["p@ss", "a:b%40", None],
     "hostname": ["new.org", "[::2]", "10.9.9.9"],
-    "port": [8443, None],
+    "port": [8443, None, 0],
 }
 
 
 def base_url(b):
     netloc = b["hostpart"]
-    if b["port"]:
+    if b["port"] is not None:
         netloc += f":{b['port']}"
     if b["username"]:
         netloc = b["username"] + (f":{b['password']}" if b["password"] else "") + "@" + netloc
@@ -233,6 +277,7 @@ def shards(tier, seed):
     out += [("replace", i) for i in range(len(BASES))]
     out.append(("misc",))
     out.append(("sequences",))
+    out.append(("noserver",))
     return out
 
 
@@ -252,6 +297,8 @@ def run_shard(desc, tier):
             for names in itertools.combinations(comps, n):
                 replacement(r, b, names)
         r.sample({"base": base_url(b), "replace": {"hostname": "[::2]", "password": "p@ss", "port": None}})
+    elif desc[0] == "noserver":
+        reconstruct_noserver(r)
     elif desc[0] == "sequences":
         # several URLs built one after another in one process: the result for one request must not depend on earlier ones
         for order in (SCHEMES, SCHEMES[::-1], ["http", "ws", "http", "wss", "https", "ws"]):
